@@ -59,28 +59,40 @@ type opView struct {
 	Author  string
 	Base    string // unix time, nonce, own metadata
 	Payload string // the kind's fields
-	Files   []repository.Hash
+	// the same two with every string read the way encoding/json stores a byte string that is not
+	// valid UTF-8: each offending byte becomes U+FFFD
+	BaseN    string
+	PayloadN string
+	Files    []repository.Hash
 }
 
 func (o opView) text() string {
 	return fmt.Sprintf("id=%s type=%d author=%s %s %s", o.Id, o.Type, o.Author, o.Base, o.Payload)
 }
 
-func metaText(m map[string]string) string {
-	keys := make([]string, 0, len(m))
-	for k := range m {
-		keys = append(keys, k)
+// asStored is what encoding/json makes of a string: every byte that is not part of a valid UTF-8
+// sequence is replaced by U+FFFD (exactly what the conversion through []rune does).
+func asStored(s string) string { return string([]rune(s)) }
+
+func ident(s string) string { return s }
+
+func metaTextF(m map[string]string, f func(string) string) string {
+	kv := make([][2]string, 0, len(m))
+	for k, v := range m {
+		kv = append(kv, [2]string{f(k), f(v)})
 	}
-	sort.Strings(keys)
+	sort.Slice(kv, func(i, j int) bool { return kv[i][0] < kv[j][0] })
 	var sb strings.Builder
-	for _, k := range keys {
-		fmt.Fprintf(&sb, "%q=%q;", k, m[k])
+	for _, e := range kv {
+		fmt.Fprintf(&sb, "%q=%q;", e[0], e[1])
 	}
 	return sb.String()
 }
 
-func baseText(b *dag.OpBase) string {
-	return fmt.Sprintf("time=%d nonce=%x meta={%s}", b.UnixTime, b.Nonce, metaText(b.Metadata))
+func metaText(m map[string]string) string { return metaTextF(m, ident) }
+
+func baseTextF(b *dag.OpBase, f func(string) string) string {
+	return fmt.Sprintf("time=%d nonce=%x meta={%s}", b.UnixTime, b.Nonce, metaTextF(b.Metadata, f))
 }
 
 func hashesText(h []repository.Hash) string {
@@ -118,29 +130,55 @@ func setMetaPayload(target entity.Id, m map[string]string) string {
 	return fmt.Sprintf("target=%s new={%s}", target, metaText(m))
 }
 
-// viewOp renders every stored aspect of an operation object.
+// viewOp renders every stored aspect of an operation object, raw and as stored.
 func viewOp(op dag.Operation) opView {
+	v := viewOpF(op, ident)
+	n := viewOpF(op, asStored)
+	v.BaseN, v.PayloadN = n.Base, n.Payload
+	return v
+}
+
+func mapLabels(l []bug.Label, f func(string) string) []bug.Label {
+	if l == nil {
+		return nil
+	}
+	out := make([]bug.Label, len(l))
+	for i, x := range l {
+		out[i] = bug.Label(f(string(x)))
+	}
+	return out
+}
+
+func mapMeta(m map[string]string, f func(string) string) map[string]string {
+	out := make(map[string]string, len(m))
+	for k, v := range m {
+		out[f(k)] = f(v)
+	}
+	return out
+}
+
+func viewOpF(op dag.Operation, f func(string) string) opView {
 	v := opView{Id: string(op.Id()), Type: int(op.Type())}
 	if a := op.Author(); a != nil {
 		v.Author = string(a.Id())
 	}
 	switch o := op.(type) {
 	case *bug.CreateOperation:
-		v.Base, v.Payload, v.Files = baseText(&o.OpBase), createPayload(o.Title, o.Message, o.Files), o.Files
+		v.Base, v.Payload, v.Files = baseTextF(&o.OpBase, f), createPayload(f(o.Title), f(o.Message), o.Files), o.Files
 	case *bug.SetTitleOperation:
-		v.Base, v.Payload = baseText(&o.OpBase), titlePayload(o.Title, o.Was)
+		v.Base, v.Payload = baseTextF(&o.OpBase, f), titlePayload(f(o.Title), f(o.Was))
 	case *bug.AddCommentOperation:
-		v.Base, v.Payload, v.Files = baseText(&o.OpBase), commentPayload(o.Message, o.Files), o.Files
+		v.Base, v.Payload, v.Files = baseTextF(&o.OpBase, f), commentPayload(f(o.Message), o.Files), o.Files
 	case *bug.SetStatusOperation:
-		v.Base, v.Payload = baseText(&o.OpBase), statusPayload(o.Status)
+		v.Base, v.Payload = baseTextF(&o.OpBase, f), statusPayload(o.Status)
 	case *bug.LabelChangeOperation:
-		v.Base, v.Payload = baseText(&o.OpBase), labelPayload(o.Added, o.Removed)
+		v.Base, v.Payload = baseTextF(&o.OpBase, f), labelPayload(mapLabels(o.Added, f), mapLabels(o.Removed, f))
 	case *bug.EditCommentOperation:
-		v.Base, v.Payload, v.Files = baseText(&o.OpBase), editPayload(o.Target, o.Message, o.Files), o.Files
+		v.Base, v.Payload, v.Files = baseTextF(&o.OpBase, f), editPayload(o.Target, f(o.Message), o.Files), o.Files
 	case *dag.NoOpOperation[*bug.Snapshot]:
-		v.Base, v.Payload = baseText(&o.OpBase), "noop"
+		v.Base, v.Payload = baseTextF(&o.OpBase, f), "noop"
 	case *dag.SetMetadataOperation[*bug.Snapshot]:
-		v.Base, v.Payload = baseText(&o.OpBase), setMetaPayload(o.Target, o.NewMetadata)
+		v.Base, v.Payload = baseTextF(&o.OpBase, f), setMetaPayload(o.Target, mapMeta(o.NewMetadata, f))
 	default:
 		v.Payload = fmt.Sprintf("unknown operation type %T", op)
 	}
@@ -505,10 +543,15 @@ func (b *batch) compare(r *run, path string, v view, want view, sub bool) {
 			aspect = "type"
 		case g.Author != w.Author:
 			aspect = "author"
-		case g.Base != w.Base:
+		case g.Base != w.Base && !(w.Base != w.BaseN && g.BaseN == w.BaseN):
 			aspect = "time-nonce-or-metadata"
-		case g.Payload != w.Payload:
+		case g.Payload != w.Payload && !(w.Payload != w.PayloadN && g.PayloadN == w.PayloadN):
+			// (a committed string that is not valid UTF-8 is compared as encoding/json stores it: the
+			// statement's "unicode preserved" does not speak about byte strings that are not unicode)
 			aspect = "payload"
+		}
+		if aspect == "" && (g.Base != w.Base || g.Payload != w.Payload) {
+			b.count("operations_compared_modulo_utf8_replacement")
 		}
 		if aspect != "" {
 			b.viol(r, "c04.readback", fmt.Sprintf("%s:%s-differs:type%d", path, aspect, w.Type), "operation %d read back as\n   %s\ncommitted as\n   %s", i, clip(g.text()), clip(w.text()))
